@@ -95,6 +95,8 @@ std::string getResponseCode(ParameterException::Type type)
     case ParameterException::Type::MISSING_TIME_OF_TRIP: return "MISSING_PARAM_TIME_OF_TRIP";
     case ParameterException::Type::INVALID_ORIGIN: return "INVALID_ORIGIN";
     case ParameterException::Type::INVALID_DESTINATION: return "INVALID_DESTINATION";
+    case ParameterException::Type::MISSING_PLACE: return "MISSING_PARAM_PLACE";
+    case ParameterException::Type::INVALID_PLACE: return "INVALID_PLACE";
     case ParameterException::Type::INVALID_NUMERICAL_DATA: return "INVALID_NUMERICAL_DATA";
     default: return "PARAM_ERROR_UNKNOWN";
   }
